@@ -34,7 +34,11 @@ where
         return Vec::new();
     }
 
-    let mut top_k = Vec::with_capacity(2 * k);
+    // k may be far larger than the input: never reserve more than the input is
+    // known to fill, and do not overflow on 2 * k
+    let input = input.into_iter();
+    let limit = k.saturating_mul(2);
+    let mut top_k = Vec::with_capacity(limit.min(input.size_hint().0));
     let mut threshold: Option<T::Integral> = None;
     for item in input {
         if let Some(ref t) = threshold {
@@ -43,7 +47,7 @@ where
             }
         }
         top_k.push(item);
-        if top_k.len() == 2 * k {
+        if top_k.len() == limit {
             let (_, median, _) = top_k.select_nth_unstable(k - 1);
             threshold = Some(median.value());
             top_k.truncate(k);
